@@ -9,7 +9,7 @@
 //       -L$VERIF_BUILD/rel/celeritas/lib -Wl,-rpath,$VERIF_BUILD/rel/celeritas/lib \
 //       -lceleritas -lorange -lgeocel -lcorecel
 // run:   VERIF_REPO=/repo CELER_LOG=error ./axis
-// observed on 3dd8bb7:
+// observed on the clean snapshot /tmp/repo_clean (421fdb0; OrangeTrackView / SurfaceFunctors unchanged since 3dd8bb7):
 //   simple-cms pos (0,0,100): volume=1 safety=600  distance along +x=30      <- safety 20 x too large
 //   simple-cms pos (1e-09,0,100): volume=1 safety=30  distance along +x=30   <- correct beside the axis
 //   g2 centre of sphere r=1: safety=inf distance=1
